@@ -34,7 +34,8 @@ The datetime / float idioms are mapped here, one source pattern each (anything e
 | `now.replace(day=1, hour=0, …)` / `now.replace(month=1, day=1, hour=0, …)` | `floorMonth now` / `floorYear now` – **parameters** of the generated definitions; the tie instantiates them with the calendar walk of `Model/Calendar.lean` (tied to Python's calendar by the `calendar` correspondence channel, every day 1970…2243) |
 | `x.hour`, `x.minute` (x in UTC) | `Int.fdiv (x % 86400000000) 3600000000`, `Int.fdiv ((x % 86400000000) % 3600000000) 60000000` |
 | `datetime.datetime(1970, 1, 1, 0, 0, tzinfo=UTC())` | the constant, computed by this generator with the stdlib |
-| `datetime.timedelta(days=a, seconds=b)` | `a * 86400000000 + b * 1000000` |
+| `datetime.timedelta(days=a, seconds=b, microseconds=c)` | `a * 86400000000 + b * 1000000 + c` |
+| `t // datetime.timedelta(…)` (timedelta // timedelta, an exact int) | `Int.fdiv t (…)` (pytolean's `//`) |
 | `t.total_seconds() == k`, `t.total_seconds() < k` (k an int) | `t = k * 1000000`, `t < k * 1000000` |
 | `int(t.total_seconds())` | `Int.tdiv t 1000000` |
 | `int(t.total_seconds() // k)` | `Int.fdiv t (k * 1000000)` |
@@ -156,10 +157,10 @@ class TimingTranslator(Translator):
         # datetime.timedelta(days=…, seconds=…)
         if isinstance(e, ast.Call) and ast.unparse(e.func) == "datetime.timedelta":
             kw = self.const_kw(e)
-            if not kw or set(kw) - {"days", "seconds"}:
+            if not kw or set(kw) - {"days", "seconds", "microseconds"}:
                 raise CannotTranslate(f"timedelta arguments: {text}")
             parts = []
-            for name, unit in (("days", DAY_US), ("seconds", US)):
+            for name, unit in (("days", DAY_US), ("seconds", US), ("microseconds", 1)):
                 if name in kw:
                     if isinstance(kw[name], ast.Constant) and type(kw[name].value) is int:
                         parts.append(lit(kw[name].value * unit))
